@@ -46,37 +46,38 @@ func writeEvidence(b builds, cfg tierCfg, oi oracleInfo, agg *simAgg, eq, cmp in
 		"rule": "evaluation = one simulated run (a generated workload of 1-8 caller tasks x 1-6 calls each, one seeded schedule, one seeded fault plan) or one call of a sequential-reference pass. " +
 			"A run is non-trivial iff >=2 tasks were inside a library call at the same time and >=1 preemptive switch happened (for the no-preemption policy 'seq': >=2 calls in a seeded order). " +
 			"Distinct = distinct 64-bit signatures of the run's event log (every switch with task/op/step-in-op/site, every fault event, every op begin/end with the hash of its outcome), counted by the driver over all processes of both builds.",
-		"samples":                       samples,
-		"exhaustive":                    false,
-		"mode":                          mode,
-		"simulated_runs":                agg.runs,
-		"runs_per_build":                agg.perBuild,
-		"processes":                     agg.procs,
-		"cold_starts":                   agg.faults["cold"],
-		"operations":                    agg.ops,
-		"logical_steps_simulated_time":  agg.steps,
-		"preemptive_switches":           agg.switches,
-		"runs_per_hour":                 runsPerHour,
-		"steps_per_hour":                stepsPerHour,
-		"seeds":                         []uint64{seed},
-		"fault_kinds_fired":             agg.faults,
-		"policy_runs":                   agg.policy,
-		"tasks_per_run_histogram":       agg.tasksHist,
-		"reach_probes":                  agg.probes,
-		"yield_sites_total":             len(b.rep.Sites),
-		"yield_sites_reached":           reached,
-		"yield_sites_preempted_at":      preempted,
-		"shared_sites":                  b.rep.NShared,
-		"api_sites":                     b.rep.NAPI,
-		"package_level_vars":            len(b.rep.PkgVars),
-		"map_range_sites":               len(b.rep.MapRange),
-		"unmodelled_constructs":         b.rep.Unmodelled,
-		"imports_of_note":               b.rep.ImportsOfNote,
-		"sync_rewrites":                 b.rep.Rewrites,
-		"api_functions":                 b.rep.APIFuncs,
-		"corpus_calls":                  len(oi.corpus.Calls),
-		"corpus_calls_used":             agg.callsUsed,
-		"corpus_calls_over_step_bound":  oi.dropped,
+		"samples":                      samples,
+		"exhaustive":                   false,
+		"mode":                         mode,
+		"simulated_runs":               agg.runs,
+		"runs_per_build":               agg.perBuild,
+		"processes":                    agg.procs,
+		"cold_starts":                  agg.faults["cold"],
+		"operations":                   agg.ops,
+		"logical_steps_simulated_time": agg.steps,
+		"preemptive_switches":          agg.switches,
+		"runs_per_hour":                runsPerHour,
+		"steps_per_hour":               stepsPerHour,
+		"seeds":                        []uint64{seed},
+		"fault_kinds_fired":            agg.faults,
+		"policy_runs":                  agg.policy,
+		"tasks_per_run_histogram":      agg.tasksHist,
+		"reach_probes":                 agg.probes,
+		"yield_sites_total":            len(b.rep.Sites),
+		"yield_sites_reached":          reached,
+		"yield_sites_preempted_at":     preempted,
+		"shared_sites":                 b.rep.NShared,
+		"api_sites":                    b.rep.NAPI,
+		"package_level_vars":           len(b.rep.PkgVars),
+		"map_range_sites":              len(b.rep.MapRange),
+		"unmodelled_constructs":        b.rep.Unmodelled,
+		"imports_of_note":              b.rep.ImportsOfNote,
+		"sync_rewrites":                b.rep.Rewrites,
+		"api_functions":                b.rep.APIFuncs,
+		"corpus_calls":                 len(oi.corpus.Calls),
+		"corpus_calls_used":            agg.callsUsed,
+		"corpus_calls_over_step_bound": oi.dropped,
+		"corpus_calls_removed_because_they_crash_or_hang_even_alone": len(oi.excluded),
 		"oracle_batch_calls":            oi.batch,
 		"oracle_isolated_process_calls": oi.iso,
 		"builds_equal_signature":        fmt.Sprintf("%d of %d (seed, process) pairs gave the identical run-signature chain in the -race and the plain build", eq, cmp),
